@@ -63,7 +63,7 @@ func Note(monitor, text string) {
 	if t.lastStep > step {
 		step = t.lastStep
 	}
-	t.events = append(t.events, Event{Step: step, Thread: t.tid, Monitor: monitor, Text: text})
+	t.events = append(t.events, Event{Step: step, Thread: t.tid, Monitor: monitor, Text: text, Note: true})
 }
 
 // AwaitQuiescence blocks until no other thread is enabled.
